@@ -865,6 +865,10 @@ pub async fn handle_changes(
 
         buf_cost += cost; // tracks the cost, not number of changes
     }
+
+    // a batch that is being applied commits whether or not this task is still around: wait
+    // for it, so that what it changed reaches the subscriptions before they are wound down
+    while join_set.join_next().await.is_some() {}
 }
 
 /// Start a new sync with multiple other nodes
